@@ -182,6 +182,39 @@ UNITS += [
          contract="\n    ensures /*@total_size*/ r == self.0.at(blob_type).total_size,\n"),
 ]
 
+IXF = "crates/core/src/index.rs"
+WI = dict(wrap_open="impl Index {", wrap_close="}")
+def typed(name, idt, conv, tpe, kind):
+    if kind == "get":
+        contract = """
+    requires self.wf(),
+    ensures
+        /*@%s_looks_up_under_type_%s*/ r matches Some(e) ==> e.blob_type == BlobType::%s && exists|i: int| 0 <= i < self.0.at(BlobType::%s).entries.full().len()
+              && (#[trigger] self.0.at(BlobType::%s).entries.full()[i]).id == BlobId(id.0)
+              && e.pack == self.0.at(BlobType::%s).packs@[self.0.at(BlobType::%s).entries.full()[i].pack_idx as int],
+        /*@%s_none_means_absent_under_type*/ r is None && self.0.at(BlobType::%s).entries.kind() == 2 ==>
+              forall|i: int| 0 <= i < self.0.at(BlobType::%s).entries.full().len() ==> (#[trigger] self.0.at(BlobType::%s).entries.full()[i]).id != BlobId(id.0),
+""" % (name, tpe, tpe, tpe, tpe, tpe, tpe, name, tpe, tpe, tpe)
+        ret = "Option<IndexEntry>"
+    else:
+        contract = """
+    requires self.wf(),
+    ensures
+        /*@%s_is_membership_under_type_%s*/ self.0.at(BlobType::%s).entries.kind() == 2 ==> r == exists|i: int| 0 <= i < self.0.at(BlobType::%s).entries.full().len() && (#[trigger] self.0.at(BlobType::%s).entries.full()[i]).id == BlobId(id.0),
+        self.0.at(BlobType::%s).entries.kind() == 1 ==> r == exists|i: int| 0 <= i < self.0.at(BlobType::%s).entries.ids().len() && #[trigger] self.0.at(BlobType::%s).entries.ids()[i] == BlobId(id.0),
+""" % (name, tpe, tpe, tpe, tpe, tpe, tpe, tpe)
+        ret = "bool"
+    return Unit(name="ri_" + name, file=IXF, anchor="fn %s(&self, id: &%s) -> %s" % (name, idt, ret), within="pub trait ReadIndex {", ret_name="r", **WI,
+                functions=["index::ReadIndex::%s (default method, instantiated for binarysorted::Index)" % name],
+                rewrites=[Rw("&BlobId::from(**id)", "&%s(id)" % conv, why="Id newtype conversion")],
+                contract=contract)
+UNITS += [
+    typed("get_tree", "TreeId", "vblobid_of_tree", "Tree", "get"),
+    typed("get_data", "DataId", "vblobid_of_data", "Data", "get"),
+    typed("has_tree", "TreeId", "vblobid_of_tree", "Tree", "has"),
+    typed("has_data", "DataId", "vblobid_of_data", "Data", "has"),
+]
+
 KANI = [
     Harness("index::binarysorted::verif_kani::c17_bounded_pack_indexes_next", kind="bounded",
             bound="iterator state built directly: tree packs {2 blobs, 0 blobs}, data packs {1 blob}; ids/offsets/lengths symbolic",
@@ -190,7 +223,7 @@ KANI = [
 KANI_UNWIND = 6
 META = {"not_covered": [
     "PackIndexes::next / Index::into_iter under Verus (loop with `break (a, b)`: 'complex break expressions' unsupported) - bounded Kani stand-in only",
-    "GlobalIndex::new_from_collector passing only non-marked packs (call site inside a channel loop)",
+    "GlobalIndex::new_from_collector is a unit of C05 (gi_new_from_collector: exactly the live packs are fed)",
     "EnumMap::map applying the into_index closure to both slots (assumed)",
     "serde of index files",
 ]}
